@@ -274,7 +274,67 @@ fn strip<T: Strip>(x: &mut T) {
     x.strip_it()
 }
 
+/// A built header whose counter-signature chain (1-8 levels) ends in a *built* protected header
+/// holding a value nested almost to the CBOR parser's limit: it encodes, and decoding the output
+/// returns it (each protected byte string is a CBOR item of its own).
+fn deep_nested_case(g: &mut Gen, ctx: &mut Ctx) -> CaseResult {
+    use coset::cbor::value::Value;
+    use coset::{CoseSignature, Label, ProtectedHeader};
+    let d = match g.below(3) {
+        0 => 100 + g.below(100),
+        1 => 200 + g.below(45),
+        _ => 245 + g.below(10),
+    };
+    let mut v = Value::from(1);
+    let kind = g.below(2);
+    for _ in 0..d {
+        v = if kind == 0 { Value::Array(vec![v]) } else { Value::Map(vec![(Value::from(0), v)]) };
+    }
+    let level = 1 + g.below(8);
+    let inner = Header { rest: vec![(Label::Int(1000), v)], ..Default::default() };
+    // is the content itself within the parser's reach?  (as a message's own protected header)
+    let flat = coset::CoseSign1 { protected: ProtectedHeader { original_data: None, header: inner.clone() }, ..Default::default() };
+    let flat_bytes = flat.clone().to_vec().map_err(|e| format!("COSE_Sign1 with a deep protected value fails to encode: {:?}", e))?;
+    let flat_ok = coset::CoseSign1::from_slice(&flat_bytes).is_ok();
+    let mut sig = CoseSignature { protected: ProtectedHeader { original_data: None, header: inner }, unprotected: Header::default(), signature: vec![1] };
+    for n in 1..level {
+        let hdr = Header { counter_signatures: vec![sig], ..Default::default() };
+        sig = if g.bool() {
+            CoseSignature { protected: ProtectedHeader { original_data: None, header: hdr }, unprotected: Header::default(), signature: vec![n as u8] }
+        } else {
+            CoseSignature { protected: ProtectedHeader::default(), unprotected: hdr, signature: vec![n as u8] }
+        };
+    }
+    let h = Header { counter_signatures: vec![sig], ..Default::default() };
+    ctx.classf(format!("deep-nested:level-{}:{}", level, match d { 0..=199 => "deep", 200..=244 => "deeper", _ => "at-limit" }));
+    ctx.nontrivial(hash_str(&format!("dn|{}|{}|{}", level, d, kind)));
+    ctx.sample_with(|| format!("built header: {} nested counter-signature(s), innermost protected header holds a value nested {} deep", level, d));
+    let out = h.clone().to_vec().map_err(|e| format!("well-formed built header ({} counter-signature level(s), value nested {} deep) failed to encode: {:?}", level, d, e))?;
+    match Header::from_slice(&out) {
+        Ok(back) => {
+            // (decoded protected headers retain bytes: compare the views)
+            fn strip(h: &mut Header) {
+                for cs in h.counter_signatures.iter_mut() {
+                    cs.protected.original_data = None;
+                    strip(&mut cs.protected.header);
+                    strip(&mut cs.unprotected);
+                }
+            }
+            let mut b = back;
+            strip(&mut b);
+            ensure!(same(&b, &h), "decoding the output does not return the built header ({} level(s), value nested {} deep)", level, d);
+        }
+        Err(e) => {
+            ensure!(!flat_ok, "own output rejected by the decoder ({:?}): built header with {} counter-signature level(s) whose innermost protected header holds a value nested {} deep — the same protected header decodes fine as a message's own", e, level, d);
+        }
+    }
+    Ok(())
+}
+
 fn case(g: &mut Gen, ctx: &mut Ctx) -> CaseResult {
+    if g.ratio(1, 25) {
+        return deep_nested_case(g, ctx);
+    }
     match g.weighted(&[3, 6, 2, 1]) {
         0 => {
             // Header / ProtectedHeader
